@@ -30,7 +30,7 @@ RULE = (
 )
 ASSUMPTIONS = [
     "reference interpreter encodes the property's scoping order: aliases > inner template bindings > inner data > bindings between tag and fill > outer variables (django); lexical tag-position environment + between bindings + aliases (isolated)",
-    "isolated mode: a name bound between tag and fill that collides with a name visible at the tag, two bindings of one name between tag and fill, and the non-loop names of the forwarded loop layer are wildcards (statement silent)",
+    "isolated mode: a name bound between tag and fill that collides with a name visible at the tag, and the non-loop names of the forwarded loop layer are wildcards (statement silent); a name bound twice between tag and fill has its innermost value (lexical scoping)",
     "django mode + `only`: visibility of tag-position variables in fill content is a wildcard",
     "iterating / passing on slot-data dicts and slot references is outside the domain (case skipped)",
 ]
